@@ -147,7 +147,9 @@ PaOK(e) ==
 WcOK(e) ==
   LET E == e.e  D == e.d  cb == IF e.efs = 16 THEN 1 ELSE 0 IN
   /\ e.efs \in FsSetKHz /\ e.n \in {2, 4} /\ e.nf \in 1..MaxFramesPerPacket /\ IsBit(e.coded)
-  /\ (e.coded = 1) =>
+  \* claimed only for packets that carry the SILK frames (not the TOC-only packet the encoder emits when SILK busted its
+  \* byte budget, which the decoder conceals) and on which both range coders ended in the same state
+  /\ (e.coded = 1 /\ e.nfr = 1 /\ e.fsz >= 2 /\ e.er = e.dr) =>
        /\ e.dfs = e.efs /\ e.dn = e.n
        /\ D.st = E.st /\ D.qo = E.qo
        /\ D.ix = E.ix /\ D.ip = E.ip /\ D.q = E.q /\ D.lg = E.lg
